@@ -54,12 +54,16 @@ def run_cases(ctx, cases: Iterable[dict], *, sample_every: int = 1) -> None:
             raise
         canon = (case.get("version"), case.get("metric", True), tuple(map(repr, case["steps"])),
                  tuple(case.get("faults") or ()), tuple(case.get("fail19") or ()), case.get("tz"),
-                 tuple(case.get("fail_reply_types") or ()), case.get("fail_reply_every"), case.get("fault_class"))
+                 tuple(case.get("fail_reply_types") or ()), case.get("fail_reply_every"), case.get("fault_class"),
+                 repr(sorted((case.get("config_extra") or {}).items())))
         ctx.case(canon, nontrivial=is_nontrivial(case, ls), sample=case if len(case["steps"]) <= 12 else
                  dict(case, steps=case["steps"][:12] + [["...", len(case["steps"]) - 12, "more steps"]]))
         for m in mismatches:
             if m.prop != ctx.pid:
                 ctx.obs(f"other-property-mismatch:{m.prop}:{m.key}")
+                continue
+            if case.get("only_keys") is not None and m.key not in case["only_keys"]:
+                ctx.obs(f"not-judged-under-unknown-option:{m.key}")
                 continue
             witness = case
             if m.key not in seen_keys:
